@@ -77,6 +77,11 @@ FILTERS = ["upper", "lower", "length", "default('d')", "join(', ')", "e", "safe"
            "map(attribute='a')|list", "select('odd')|list", "truncate(5, end='')", "tojson"]
 TESTS = ["defined", "none", "odd", "divisibleby(3)", "divisibleby 3", "string", "in y",
          "sameas(x)", "not defined", "eq 1", "mapping"]
+ARG_FILTERS = ["default", "join", "replace", "round", "truncate", "indent", "batch", "center", "sum", "attr"]
+ARG_TESTS = ["divisibleby", "sameas", "eq", "in", "gt"]
+# constant operands of * and ** (sequences of non-pairs, non-iterables, mappings with odd keys)
+STAR_CONSTS = ["'ab'", "[1, 2]", "(1,)", "5", "none", "{'a': 1}", "''", "[[]]", "1.5"]
+DSTAR_CONSTS = ["'ab'", "['abc']", "{'a': 1}", "{1: 2}", "5", "none", "[('a', 1)]", "[(1, 2, 3)]", "{}", "[1]", "true"]
 INTS = ["0", "1", "42", "0x1F", "0b101", "0o17", "1_000", "00", "0_0", "7"]
 FLOATS = ["1.5", "1e3", "2.5e-3", "1_0.0_1", "1E+2", "0.0", "1e400", "3.14"]
 STRS = ["'a'", '"b"', "'it\\'s'", "'\\n'", "'é'", "'{{'", "'%}'", "''", '"#}"',
@@ -151,10 +156,10 @@ class TemplateGen:
             if n not in kws:
                 kws.append(n)
         parts += [f"{n}={self.expr(d + 1)}" for n in kws]
-        if r.random() < 0.1:
-            parts.append("*" + self.name())
-        if r.random() < 0.1:
-            parts.append("**" + self.name())
+        if r.random() < 0.12:
+            parts.append("*" + (self.name() if r.random() < 0.5 else r.choice(STAR_CONSTS)))
+        if r.random() < 0.12:
+            parts.append("**" + (self.name() if r.random() < 0.5 else r.choice(DSTAR_CONSTS)))
         return "(" + ", ".join(parts) + (", " if parts and r.random() < 0.1 else "") + ")"
 
     def expr(self, d=0, simple=False):
@@ -200,9 +205,16 @@ class TemplateGen:
             return self.name() + self.args(d)
         if k in (15, 16):
             self.used.add("filter")
+            if r.random() < 0.15:
+                # a filter called with generated arguments (incl. constant * / ** operands)
+                self.used.add("filter_genargs")
+                return self.expr(d + 1, simple=True) + "|" + r.choice(ARG_FILTERS) + self.args(d + 1)
             return self.expr(d + 1, simple=r.random() < 0.5) + "|" + r.choice(FILTERS)
         if k == 17:
             self.used.add("test")
+            if r.random() < 0.15:
+                self.used.add("test_genargs")
+                return self.name() + " is " + r.choice(ARG_TESTS) + self.args(d + 1)
             return self.name() + " is " + r.choice(TESTS)
         if k == 18:
             self.used.add("paren")
@@ -515,6 +527,15 @@ CORNER_EXPRS = [
     "not x is y", "x is y and z", "x is divisibleby 3 + 1", "x is sameas none", "x is in y",
     "x in y in z", "x < y < z", "a if b", "a if b else c if d else e", "(a if b) if c else d",
 ]
+# every kind of call (function, method, filter, test) with a CONSTANT operand of * / **:
+# the optimizer tries to unpack such operands while the template is being compiled
+CORNER_EXPRS += [f"{callee}({pre}{star}{c})"
+                 for callee, pres in (("f", ("",)), ("x.m", ("",)), ("x|default", ("", "1, ")),
+                                      ("x is divisibleby", ("",)), ("1 is divisibleby", ("",)))
+                 for star in ("*", "**")
+                 for c in sorted(set(STAR_CONSTS + DSTAR_CONSTS))
+                 for pre in pres]
+
 CORNER_TAGS = [
     "macro m(a, a)", "macro m(a, ª)", "macro m(__debug__)", "macro m(a=1, b)", "macro m(caller)",
     "macro m(caller=1, x)", "macro m(varargs)", "macro m(kwargs, varargs, caller)", "macro m(self)",
